@@ -279,7 +279,8 @@ func explain(o *Obligation, dir string) string {
 			}
 		}
 	}
-	split(o.Goal, 0)
+	skGoal, _ := skolemize(o.Goal)
+	split(skGoal, 0)
 	// scalar leaves of the goal
 	var leaves []*Term
 	var walk func(t *Term, d int)
@@ -296,8 +297,9 @@ func explain(o *Obligation, dir string) string {
 			walk(a, d+1)
 		}
 	}
-	walk(o.Goal, 0)
+	walk(skGoal, 0)
 	q := o.query(TS.axioms)
+	q.Asserts = append(q.Asserts, Not(skGoal))
 	q.GetValues = append(append([]*Term{}, parts...), leaves...)
 	txt, gv := q.Render(true)
 	file := filepath.Join(dir, "explain.smt2")
@@ -314,8 +316,8 @@ func explain(o *Obligation, dir string) string {
 		if !ok {
 			continue
 		}
-		if t.sort.K == SBool {
-			fmt.Fprintf(&sb, "    %-5s %s\n", v, t.render(9))
+		if t.sort.K == SBool && (t.op == "=" || t.op == "app" || t.op == "var" || strings.HasPrefix(t.op, "bv")) {
+			fmt.Fprintf(&sb, "    %-5s %s\n", v, t.render(7))
 		}
 	}
 	for e, t := range gv {
